@@ -622,19 +622,18 @@ void ExpressionBuilder::expr_dot(const char* id)
             expr = expression_t::create_dot(expr, *i, position, type);
         }
     } else if (type.is(PROCESS_VAR)) {
-        symbol_t uid;
-        // temporarily set the frame to that of its associated template
-        if (dynamicFrames.find(expr.get_symbol().get_name()) == dynamicFrames.end()) {
+        // the members of a process are the declarations of its template: look into the frame of the template
+        // only, not through it into the global declarations
+        const auto templ_frame = dynamicFrames.find(expr.get_symbol().get_name());
+        if (templ_frame == dynamicFrames.end()) {
             throw UnknownIdentifierError(expr.get_symbol().get_name());
         }
-        push_frame(dynamicFrames[expr.get_symbol().get_name()]);
-
-        if (!resolve(id, uid)) {
-            popFrame();  // leave the template's scope again before reporting
+        const auto index = templ_frame->second.get_index_of(id);
+        if (!index) {
             expr_false();
             throw UnknownIdentifierError(id);
         }
-        popFrame();  // Remove that frame again
+        symbol_t uid = templ_frame->second[*index];
         expression_t identifier = expression_t::create_identifier(uid, position);
 
         expr = (expression_t::create_nary(
